@@ -210,8 +210,12 @@ class APE:
             m = _LOCALSTRUCT.match(key)
             if m:
                 # member of a local struct object: changes only by stores to it or calls given its address
-                return ("s", "%s@L%d" % (key, st.lver.get(m.group(1), 0)))
-            return ("s", "%s@%d" % (key, st.epoch + st.fver.get(_lastfield(key), 0)))
+                v_ = ("s", "%s@L%d" % (key, st.lver.get(m.group(1), 0)))
+            else:
+                v_ = ("s", "%s@%d" % (key, st.epoch + st.fver.get(_lastfield(key), 0)))
+            # remember the value read: later reads see the same symbol until something that may write this key intervenes
+            st.env[key] = v_
+            return v_
         if k == "UnaryOperator":
             op = n["op"]
             a = self.val(st, n["kids"][0])
@@ -234,6 +238,11 @@ class APE:
                 return self.val(st, n["kids"][1])
             a = self.val(st, n["kids"][0])
             b = self.val(st, n["kids"][1])
+            if a[0] == "c" and b[0] == "c" and op in ("/", "%", "&", "|", "^", "<<", ">>") and a[1] >= 0 and b[1] >= 0:
+                x, y = a[1], b[1]
+                if not (op in ("/", "%") and y == 0) and not (op in ("<<", ">>") and y > 63):
+                    return ("c", {"/": lambda: x // y, "%": lambda: x % y, "&": lambda: x & y, "|": lambda: x | y, "^": lambda: x ^ y,
+                                  "<<": lambda: (x << y) & ((1 << 64) - 1), ">>": lambda: x >> y}[op]())
             if a[0] == "c" and b[0] == "c":
                 try:
                     x, y = a[1], b[1]
@@ -517,6 +526,11 @@ class APE:
                     v = ("s", "(%s%s%s)" % (vstr(old), n["op"][:-1], vstr(r)))
                     if old[0] == "c" and r[0] == "c" and n["op"] in ("+=", "-="):
                         v = ("c", old[1] + r[1] if n["op"] == "+=" else old[1] - r[1])
+                    elif old[0] == "c" and r[0] == "c" and n["op"] in ("&=", "|=", "/=", "%=", ">>=", "<<=") and old[1] >= 0 and r[1] >= 0 \
+                            and not (n["op"] in ("/=", "%=") and r[1] == 0):
+                        x, y = old[1], r[1]
+                        v = ("c", {"&=": x & y, "|=": x | y, "/=": x // y if y else 0, "%=": x % y if y else 0, ">>=": x >> min(y, 63),
+                                   "<<=": (x << min(y, 63)) & ((1 << 64) - 1)}[n["op"]])
                     elif r[0] == "c" and n["op"] == "+=":
                         v = add_const(old, r[1])
                 self._store(st, lhs, v, n, B)
